@@ -116,7 +116,11 @@ func (cc *checkCtx) modelAndTest(vc *FnVC, o *Obligation, rf *ReplayFile) {
 			gen.q(vc.retTerms[0])
 		}
 	}
-	for _, bound := range []int{8, 40} {
+	bounds := []int{8, 40}
+	if o.Result != "sat" {
+		bounds = []int{8} // no solver found a model of the full query: one cheap attempt on the reduced context
+	}
+	for _, bound := range bounds {
 		script := vc.modelScript(o, gen.queries, gen.lens, bound)
 		file := filepath.Join(cc.dir, "model.smt2")
 		os.WriteFile(file, []byte(script), 0o644)
